@@ -222,7 +222,22 @@ func table(durations []string) []entry {
 		{FamKV, 3, "exists", func(t *rapid.T, p *Pool) []string { return append([]string{"exists"}, p.keysN(t, 1, 3)...) }},
 		{FamKV, 3, "mget", func(t *rapid.T, p *Pool) []string { return append([]string{"mget"}, p.keysN(t, 1, 3)...) }},
 		{FamKV | FamTTL, 2, "setex", func(t *rapid.T, p *Pool) []string { return []string{"setex", p.key(t), dur(t), p.value(t)} }},
-		{FamExtra, 3, "append", func(t *rapid.T, p *Pool) []string { return []string{"append", p.key(t), p.value(t)} }},
+		{FamExtra, 3, "append", func(t *rapid.T, p *Pool) []string {
+			// APPEND is not in the documented command set (it is a vehicle for C10); appending the
+			// empty string answers 0 without touching the key, so an empty operand is not generated
+			v := p.value(t)
+			if v == "" {
+				v = "e"
+			}
+			return []string{"append", p.key(t), v}
+		}},
+		{FamExtra, 2, "setrange", func(t *rapid.T, p *Pool) []string {
+			v := p.value(t)
+			if v == "" {
+				v = "e" // an empty operand answers 0 without touching the key (undocumented command)
+			}
+			return []string{"setrange", p.key(t), rapid.SampledFrom([]string{"0", "1", "3"}).Draw(t, "off"), v}
+		}},
 		{FamExtra, 1, "strlen", func(t *rapid.T, p *Pool) []string { return []string{"strlen", p.key(t)} }},
 
 		{FamHash, 5, "hset", func(t *rapid.T, p *Pool) []string { return []string{"hset", p.key(t), p.member(t), p.value(t)} }},
